@@ -120,6 +120,108 @@ pub fn content_soup(r: &mut Rng) -> Vec<u8> {
     out
 }
 
+/// Strings and stream texts that the library parses further after the object syntax: dates, text strings, character maps,
+/// PostScript calculator functions. Each generator starts from a valid text and damages it in ways that stay inside the
+/// object syntax (the string/stream still parses), so that the second-level parser is what gets exercised.
+pub fn date_soup(r: &mut Rng) -> Vec<u8> {
+    let mut t: Vec<u8> = match r.below(6) { 0 => b"D:20200102030405+01'00'".to_vec(), 1 => b"D:20200102030405Z".to_vec(), 2 => b"D:2020".to_vec(), 3 => b"20200102030405-08'30".to_vec(), 4 => b"D:19991231235959+14'59'".to_vec(), _ => b"D:202001020304".to_vec() };
+    const MULTI: [&[u8]; 5] = ["\u{e9}".as_bytes(), "\u{20ac}".as_bytes(), "\u{1f600}".as_bytes(), b"\xc3", b"\xff"];
+    for _ in 0..r.below(4) {
+        if t.is_empty() { break; }
+        let k = r.below(t.len() as u64 + 1) as usize;
+        match r.below(7) {
+            0 => { let m = *r.pick(&MULTI); for (i, b) in m.iter().enumerate() { t.insert((k + i).min(t.len()), *b); } }
+            1 => { let m = *r.pick(&MULTI); let k = k.min(t.len().saturating_sub(1)); t.splice(k..(k + m.len()).min(t.len()), m.iter().cloned()); }
+            2 => { t.truncate(k); }
+            3 => { if k < t.len() { t[k] = *r.pick(&[b'+', b'-', b'Z', b'\'', b' ', b'9', b'0', b':', b'D', 0u8]); } }
+            4 => { if k < t.len() { t.remove(k); } }
+            5 => { for _ in 0..r.below(40) { t.push(b'0' + r.below(10) as u8); } }
+            _ => { t.insert(k, b'0' + r.below(10) as u8); }
+        }
+    }
+    t
+}
+pub fn text_string_soup(r: &mut Rng) -> Vec<u8> {
+    match r.below(8) {
+        0 => b"\xfe\xff\x00A\x00".to_vec(),                      // UTF-16BE, odd length
+        1 => b"\xfe\xff\xd8\x00".to_vec(),                        // lone high surrogate
+        2 => b"\xfe\xff\xdc\x00\xd8\x00".to_vec(),               // surrogates in the wrong order
+        3 => b"\xfe\xff".to_vec(),
+        4 => b"\xef\xbb\xbfutf8 \xe2\x82".to_vec(),                // UTF-8 BOM, truncated sequence
+        5 => b"\xff\xfe\x41\x00".to_vec(),                        // little-endian BOM (not PDF)
+        6 => (0..r.below(40)).map(|_| r.next_u64() as u8).collect(),
+        _ => b"\x80\x9f\xad plain".to_vec(),
+    }
+}
+pub fn cmap_soup(r: &mut Rng) -> Vec<u8> {
+    const TOK: [&[u8]; 34] = [b"begincmap", b"endcmap", b"begincodespacerange", b"endcodespacerange", b"beginbfchar", b"endbfchar", b"beginbfrange", b"endbfrange", b"begincidrange", b"endcidrange", b"begincidchar", b"endcidchar",
+        b"usecmap", b"def", b"<0000>", b"<FFFF>", b"<00>", b"<0>", b"<>", b"<D83DDE00>", b"<00410042>", b"<FFFFFFFFFF>", b"[", b"]", b"[<0041> <0042>]", b"1", b"0", b"100", b"65536", b"-1", b"4294967296", b"/CMapName", b"<<", b">>"];
+    let mut t = crate::richdoc::CMAP.to_vec();
+    match r.below(4) {
+        0 => {
+            // token-level damage of the valid map
+            for _ in 0..1 + r.below(4) {
+                let words: Vec<(usize, usize)> = { let mut v = Vec::new(); let mut i = 0; while i < t.len() { while i < t.len() && t[i].is_ascii_whitespace() { i += 1; } let s = i; while i < t.len() && !t[i].is_ascii_whitespace() { i += 1; } if i > s { v.push((s, i)); } } v };
+                if words.is_empty() { break; }
+                let (a, b) = words[r.below(words.len() as u64) as usize];
+                match r.below(3) { 0 => { let w: &[u8] = *r.pick(&TOK); t.splice(a..b, w.iter().cloned()); } 1 => { t.drain(a..b); } _ => { let ins: Vec<u8> = [*r.pick(&TOK), &b" "[..]].concat(); t.splice(a..a, ins); } }
+            }
+        }
+        1 => { t.clear(); for _ in 0..r.below(60) { { let w: &[u8] = *r.pick(&TOK); t.extend_from_slice(w); } t.push(*r.pick(&[b' ', b'\n', b'\r'])); } }
+        2 => {
+            // sections whose announced count, code order, code widths or target forms are off
+            t = b"/CIDInit /ProcSet findresource begin 12 dict begin begincmap 1 begincodespacerange <0000> <FFFF> endcodespacerange\n".to_vec();
+            for _ in 0..1 + r.below(4) {
+                let n = [0u32, 1, 2, 100, 101][r.below(5) as usize];
+                if r.below(2) == 0 {
+                    t.extend_from_slice(format!("{} beginbfrange\n", n).as_bytes());
+                    for _ in 0..r.below(4) { t.extend_from_slice(*r.pick(&[&b"<0000> <FFFF> <0000>\n"[..], b"<FFFF> <0000> <0041>\n", b"<00> <FFFF> <D83DDE00>\n", b"<0010> <0020> [<0041>]\n", b"<0010> <0012> [<0041> <0042> <0043> <0044>]\n", b"<0000> <FFFF> <FFFF>\n", b"<0000> <0010>\n", b"<0000> <00FF> <DBFF>\n", b"<0000> <FFFF> <00FFFFFF>\n"])); }
+                    t.extend_from_slice(b"endbfrange\n");
+                } else {
+                    t.extend_from_slice(format!("{} beginbfchar\n", n).as_bytes());
+                    for _ in 0..r.below(4) { t.extend_from_slice(*r.pick(&[&b"<0041> <0041>\n"[..], b"<41> <0041>\n", b"<0041> <>\n", b"<0041> <D800>\n", b"<0041>\n", b"<004100> <0041>\n", b"<0041> /space\n", b"<0041> <004>\n"])); }
+                    t.extend_from_slice(b"endbfchar\n");
+                }
+            }
+            if r.below(2) == 0 { t.extend_from_slice(b"endcmap"); }
+        }
+        _ => { byte_mutate(&mut t, r); }
+    }
+    t
+}
+pub fn ps_soup(r: &mut Rng) -> Vec<u8> {
+    const TOK: [&str; 44] = ["{", "}", "{", "}", "abs", "add", "atan", "ceiling", "cos", "cvi", "cvr", "div", "exp", "floor", "idiv", "ln", "log", "mod", "mul", "neg", "round", "sin", "sqrt", "sub", "truncate", "and", "bitshift", "eq", "false", "ge", "gt", "le", "lt", "ne", "not", "or", "true", "xor", "if", "ifelse", "copy", "dup", "exch", "index"];
+    const NUM: [&str; 12] = ["0", "1", "-1", "2", "0.5", "1e10", "2147483647", "-2147483648", "99999999999", "3", "100000", "."];
+    let mut t = Vec::new();
+    if r.below(4) != 0 { t.extend_from_slice(b"{ "); }
+    for _ in 0..r.below(40) {
+        match r.below(4) { 0 => t.extend_from_slice(r.pick(&NUM).as_bytes()), 1 => t.extend_from_slice(r.pick(&["pop", "roll", "index", "copy", "dup", "exch"]).as_bytes()), _ => t.extend_from_slice(r.pick(&TOK).as_bytes()) }
+        t.push(b' ');
+    }
+    if r.below(4) != 0 { t.extend_from_slice(b"}"); }
+    t
+}
+
+/// The rich document with its second-level texts replaced by soup (see above).
+fn typed_text_case(r: &mut Rng) -> Vec<u8> {
+    use crate::mkpdf::{dict, name, Obj};
+    let mut objs = richdoc::objects();
+    let set_stream = |objs: &mut Vec<(u32, Obj)>, nr: u32, data: Vec<u8>| { if let Some((_, Obj::Stream(d, old))) = objs.iter_mut().find(|(n, _)| *n == nr) { d.retain(|(k, _)| k != b"Filter"); *old = data; } };
+    if r.below(2) == 0 { let t = cmap_soup(r); set_stream(&mut objs, 14, t); }
+    if r.below(2) == 0 { let t = ps_soup(r); set_stream(&mut objs, 24, t); }
+    // dates and text strings in annotation, embedded-file parameters, outline titles, field names
+    if let Some((_, o)) = objs.iter_mut().find(|(n, _)| *n == 45) { o.set("M", Obj::Str(date_soup(r))); o.set("Contents", Obj::Str(text_string_soup(r))); }
+    if let Some((_, Obj::Stream(d, _))) = objs.iter_mut().find(|(n, _)| *n == 32) { d.retain(|(k, _)| k != b"Params"); d.push((b"Params".to_vec(), dict(vec![("Size", Obj::Int(5)), ("CreationDate", Obj::Str(date_soup(r))), ("ModDate", Obj::Str(date_soup(r)))]))); }
+    if let Some((_, o)) = objs.iter_mut().find(|(n, _)| *n == 33) { o.set("Title", Obj::Str(text_string_soup(r))); }
+    if let Some((_, o)) = objs.iter_mut().find(|(n, _)| *n == 36) { o.set("T", Obj::Str(text_string_soup(r))); }
+    let mut info: Vec<(&str, Obj)> = vec![("Title", Obj::Str(text_string_soup(r)))];
+    if r.below(4) != 0 { info.push(("CreationDate", Obj::Str(date_soup(r)))); }
+    if r.below(2) == 0 { info.push(("ModDate", Obj::Str(date_soup(r)))); }
+    if r.below(3) == 0 { info.push(("Trapped", name(*r.pick(&["True", "False", "Unknown", "maybe", ""])))); }
+    let layout = [Layout::Classic, Layout::XrefStream][r.below(2) as usize];
+    richdoc::write_with_info(&objs, layout, b"", dict(info))
+}
+
 /// Case `idx` (deterministic in (seed, idx)).
 pub fn make_case(sd: &Seeds, seed: u64, idx: u64) -> Case {
     let mut r = Rng::derive(seed, 1, idx);
@@ -163,7 +265,8 @@ pub fn make_case(sd: &Seeds, seed: u64, idx: u64) -> Case {
             let prefix: Vec<u8> = if s.draw(5) == 0 { vec![b'x'; s.draw(600) as usize] } else { vec![] };
             Case { bytes: richdoc::write(&objs, layout, &prefix), password: vec![], cfg, labels: format!("struct:{:?}:{}", layout, labs.join(";")), deep: idx % 50 == 3 }
         }
-        8 if (idx / 10) % 2 == 0 => Case { bytes: grammar_soup(&mut r), password: vec![], cfg, labels: "grammar".into(), deep: false },
+        8 if (idx / 10) % 3 == 0 => Case { bytes: grammar_soup(&mut r), password: vec![], cfg, labels: "grammar".into(), deep: false },
+        8 if (idx / 10) % 3 == 1 => Case { bytes: typed_text_case(&mut r), password: vec![], cfg, labels: "typed-text".into(), deep: false },
         8 => {
             // the rich document with its page content (and the form XObject / pattern streams) replaced by content-stream token soup
             let mut objs = richdoc::objects();
